@@ -1,0 +1,56 @@
+//go:build verif
+
+package device
+
+// Read-only accessors for the cookie state (property C10, build tag verif only).  Add-only.
+
+// VerifCookieGenState is a snapshot of a peer's CookieGenerator.
+type VerifCookieGenState struct {
+	Found         bool
+	HasLastMAC1   bool
+	LastMAC1      [16]byte
+	HasCookie     bool
+	Cookie        [16]byte
+	CookieSetNano int64
+}
+
+// VerifCookieGen returns the cookie generator state of the peer with the given public key.
+func (device *Device) VerifCookieGen(pk NoisePublicKey) VerifCookieGenState {
+	device.peers.RLock()
+	peer := device.peers.keyMap[pk]
+	device.peers.RUnlock()
+	if peer == nil {
+		return VerifCookieGenState{}
+	}
+	g := &peer.cookieGenerator
+	g.RLock()
+	defer g.RUnlock()
+	st := VerifCookieGenState{Found: true, HasLastMAC1: g.mac2.hasLastMAC1, LastMAC1: g.mac2.lastMAC1}
+	if !g.mac2.cookieSet.IsZero() {
+		st.HasCookie = true
+		st.Cookie = g.mac2.cookie
+		st.CookieSetNano = g.mac2.cookieSet.UnixNano()
+	}
+	return st
+}
+
+// VerifCookieCheckerState is a snapshot of the device's CookieChecker secret.
+type VerifCookieCheckerState struct {
+	SecretSet     bool
+	SecretSetNano int64
+	Secret        [32]byte
+}
+
+// VerifCookieChecker returns the cookie checker's secret and the time it was drawn.
+func (device *Device) VerifCookieChecker() VerifCookieCheckerState {
+	c := &device.cookieChecker
+	c.RLock()
+	defer c.RUnlock()
+	var st VerifCookieCheckerState
+	if !c.mac2.secretSet.IsZero() {
+		st.SecretSet = true
+		st.SecretSetNano = c.mac2.secretSet.UnixNano()
+		st.Secret = c.mac2.secret
+	}
+	return st
+}
